@@ -365,6 +365,11 @@ def sess_c06(seed, profile='main', dots=False):
             evs.append(session.record_call(doc, {'op': 'spine_types', 'args': {'alltypes': False, 'types': [cps(t) for t in ts]}}))
         evs.append(session.record_call(doc, {'op': 'spine_types', 'args': {'alltypes': True, 'types': []}}))
         evs.append(session.record_call(doc, {'op': 'spine_types', 'args': {'alltypes': True, 'types': []}, '_form': 1}))
+        # type names that only RESEMBLE a type of the document (a prefix, an extension, another case) select nothing: selection is by equality
+        t0 = r.choice(present)
+        for ts in ([t0[:-2]], [t0 + '2', t0.upper()], ['**dyn' if '**dynam' in present else t0[:-1]] + r.sample(present, r.randint(0, len(present) - 1))):
+            evs.append(session.record_call(doc, {'op': 'dumps', 'args': session.dumps_args(types=ts), 'exact': True, 'base': base}))
+            evs.append(session.record_call(doc, {'op': 'spine_types', 'args': {'alltypes': False, 'types': [cps(t) for t in ts]}}))
         for _ in range(6):                               # ids x types intersect
             ids = r.sample(range(n), r.randint(0, n))
             ts = r.sample(present, r.randint(0, len(present)))
@@ -395,7 +400,11 @@ def random_options(r, types, agn=True):
     n = len(types)
     ids = r.choice([None, None] + [r.sample(range(n), r.randint(0, n)) for _ in range(2)])
     present = sorted(set(types))
-    ts = r.choice([None, None, r.sample(present, r.randint(1, len(present))), ['**kern'], present + ['**mens']])
+    # names that only RESEMBLE a type of the document (a prefix of it, an extension of it, another case): selection is by equality
+    t0 = r.choice(present)
+    near = [t0[:-2], t0 + '2', t0.upper(), '**dyn' if '**dynam' in present else t0[:-1]]
+    ts = r.choice([None, None, r.sample(present, r.randint(1, len(present))), ['**kern'], present + ['**mens'],
+                   r.sample(near, 2) + r.sample(present, r.randint(0, len(present) - 1))])
     inc = r.choice([None, None, [r.choice(CATS)], r.sample(CATS, r.randint(1, 5)), ['CORE', 'STRUCTURAL', 'SIGNATURES', 'BARLINES']])
     exc = r.choice([None, None, [r.choice(CATS)], r.sample(CATS, r.randint(1, 3))])
     enc = r.choice(ENCS if agn else ENCS[:4])
